@@ -168,6 +168,8 @@ func c01RunTransports(c *kit.Ctx) {
 				if err != nil {
 					if _, torn := err.(*kit.ErrTorn); torn && atomic.LoadInt32(&stop) == 0 {
 						r.fail("torn byte stream: " + err.Error())
+					} else if atomic.LoadInt32(&stop) == 0 {
+						c.Note("reader_ended_before_stop_rtsp-tcp", err.Error())
 					}
 					return
 				}
